@@ -35,7 +35,7 @@ import os, sys, sqlite3, threading, time, traceback
 from vf import core
 from vf.seams import dbapi
 
-WATCHDOG = 60.0
+WATCHDOG = 180.0   # generous: a loaded machine is slow, not wrong (60 s was hit once at load average 140)
 VISIBLE_KINDS = ('execute', 'executemany', 'commit', 'rollback')
 LOCAL_PRAGMAS = ('PRAGMA FOREIGN_KEYS', 'PRAGMA CASE_SENSITIVE_LIKE')
 
